@@ -254,8 +254,22 @@ func (e *executor) processInput(workflow *Workflow) (schema.Scope, error) {
 			return nil, &ErrInvalidWorkflow{fmt.Errorf("invalid workflow input section (%w)", err)}
 		}
 	}
-	typedInput.ApplySelf()
+	if err := applySelf(typedInput); err != nil {
+		return nil, &ErrInvalidWorkflow{fmt.Errorf("invalid workflow input section (%w)", err)}
+	}
 	return typedInput, nil
+}
+
+// applySelf resolves the references within the scope. The schema library panics when a
+// reference points to an object that does not exist.
+func applySelf(scope schema.Scope) (err error) {
+	defer func() {
+		if r := recover(); r != nil {
+			err = fmt.Errorf("%v", r)
+		}
+	}()
+	scope.ApplySelf()
+	return nil
 }
 
 // validateRootObject makes sure the root object can be obtained. The schema library panics if,
